@@ -48,6 +48,14 @@ type Op struct {
 	B      int64  `json:"b,omitempty"`
 	E      int64  `json:"e,omitempty"`
 	Script []Pers `json:"script,omitempty"`
+	// cache: interleaving of the pieces' sub-steps, [piece, phase] with phase 0 = cache walk, 1 = fetchRange.
+	// Empty = pieces one after the other.
+	Sched [][2]int `json:"sched,omitempty"`
+	// parkread: a read started in its own goroutine and parked between its first cache.Get (a hit) and the copy
+	// out of the cached chunk, while the next Hold ops run; then it resumes. Reported after those ops.
+	Hold int `json:"hold,omitempty"`
+	// read / cache / parkread: cache options passed with the call: "", "direct", "pass", "both"
+	Opt string `json:"opt,omitempty"`
 }
 
 type Case struct {
@@ -56,7 +64,9 @@ type Case struct {
 	PCS   int64  `json:"pcs"`
 	Force bool   `json:"force,omitempty"`
 	Cache string `json:"cache"` // mem | dir
-	Ops   []Op   `json:"ops,omitempty"`
+	// the blob is served by a custom remote.Handler (remoteFetcher path) instead of the HTTP fetcher
+	Handler bool `json:"handler,omitempty"`
+	Ops     []Op `json:"ops,omitempty"`
 	// concurrent part (oracle only): one op list per goroutine, run at the same time after Ops
 	Conc     [][]Op `json:"conc,omitempty"`
 	ConcSeed uint64 `json:"conc_seed,omitempty"`
@@ -483,6 +493,82 @@ func (s *server) roundTrip(req *http.Request) (*http.Response, error) {
 }
 
 // ---------------------------------------------------------------------------------------------
+// scripted remote.Handler (the remoteFetcher path)
+
+type hnd struct{ s *server }
+
+func (h *hnd) Handle(ctx context.Context, desc ocispec.Descriptor) (remote.Fetcher, int64, error) {
+	s := h.s
+	size := int64(len(s.blob))
+	s.reqs = append(s.reqs, "QHandle")
+	p := s.next()
+	switch p.K {
+	case "hfail":
+		s.served = append(s.served, "RFail")
+		return nil, 0, fmt.Errorf("handler refuses (scripted)")
+	case "hwrong":
+		s.served = append(s.served, fmt.Sprintf("RSize %s", hx.CoqZ(size+1)))
+		return &hfetcher{s}, size + 1, nil
+	}
+	s.served = append(s.served, fmt.Sprintf("RSize %s", hx.CoqZ(size)))
+	return &hfetcher{s}, size, nil
+}
+
+type hfetcher struct{ s *server }
+
+func (f *hfetcher) Fetch(ctx context.Context, off int64, size int64) (io.ReadCloser, error) {
+	s := f.s
+	s.reqs = append(s.reqs, "QFetch "+coqReg(reg{off, off + size - 1}))
+	p := s.next()
+	s.kinds = append(s.kinds, "handler."+p.K)
+	r := reg{off, off + size - 1}
+	switch p.K {
+	case "500", "conn", "403", "400", "badct", "badcr", "200nolen":
+		s.served = append(s.served, "RFail")
+		return nil, fmt.Errorf("fetch failed (scripted)")
+	case "over", "extra", "beyond":
+		r.e += s.cs
+	}
+	body := s.slice(r)
+	if p.K == "trunc" || p.K == "short" {
+		cut := 1 + p.A
+		if cut > len(body) {
+			cut = len(body)
+		}
+		body = body[:len(body)-cut]
+	}
+	s.served = append(s.served, fmt.Sprintf("RH %s %s", hx.CoqZ(off), hx.CoqBytes(body)))
+	return io.NopCloser(bytes.NewReader(body)), nil
+}
+
+func (f *hfetcher) Check() error {
+	s := f.s
+	s.reqs = append(s.reqs, "QCheck")
+	p := s.next()
+	switch p.K {
+	case "500", "conn", "403", "400":
+		s.served = append(s.served, "RFail")
+		return fmt.Errorf("check failed (scripted)")
+	}
+	s.served = append(s.served, "RChkOK")
+	return nil
+}
+
+func (f *hfetcher) GenID(off int64, size int64) string { return fmt.Sprintf("h-%d-%d", off, size) }
+
+func cacheOpts(opt string) []remote.Option {
+	switch opt {
+	case "direct":
+		return []remote.Option{remote.WithCacheOpts(cache.Direct())}
+	case "pass":
+		return []remote.Option{remote.WithCacheOpts(cache.PassThrough())}
+	case "both":
+		return []remote.Option{remote.WithCacheOpts(cache.Direct(), cache.PassThrough())}
+	}
+	return nil
+}
+
+// ---------------------------------------------------------------------------------------------
 // recording cache wrapper (oracle side: what the cache was given)
 
 type recCache struct {
@@ -493,6 +579,24 @@ type recCache struct {
 	rng     *hx.Rng
 	missPct int
 	misses  int
+	park    *parkState // armed: the next lookup, if it hits, returns a reader that parks before its first ReadAt
+}
+
+type parkState struct {
+	gate   chan struct{} // closed to resume
+	parked chan struct{} // closed when the reader is parked
+	once   sync.Once
+}
+
+type parkReader struct {
+	cache.Reader
+	ps *parkState
+}
+
+func (r *parkReader) ReadAt(p []byte, off int64) (int, error) {
+	r.ps.once.Do(func() { close(r.ps.parked) })
+	<-r.ps.gate
+	return r.Reader.ReadAt(p, off)
 }
 
 type recWriter struct {
@@ -532,9 +636,127 @@ func (c *recCache) Get(key string, opts ...cache.Option) (cache.Reader, error) {
 			return nil, fmt.Errorf("missed cache (scripted loss)")
 		}
 	}
-	return c.inner.Get(key, opts...)
+	c.mu.Lock()
+	ps := c.park
+	c.park = nil
+	c.mu.Unlock()
+	r, err := c.inner.Get(key, opts...)
+	if err == nil && ps != nil {
+		return &parkReader{Reader: r, ps: ps}, nil
+	}
+	return r, err
 }
 func (c *recCache) Close() error { return c.inner.Close() }
+
+// ---------------------------------------------------------------------------------------------
+// deterministic interleaving of the cacheAt pieces of one Cache() call (through the verif scheduling points)
+
+type fanSched struct {
+	mu      sync.Mutex
+	cond    *sync.Cond
+	steps   [][2]int
+	pos     int
+	off     int64
+	fsz     int64 // 0 = a single piece
+	inL     map[int]bool
+	inF     map[int]bool
+	exited  map[int]bool
+	free    bool // schedule abandoned (stall): everybody runs
+	stalled bool
+	srv     *server
+	start   map[int]int
+	end     map[int]int
+}
+
+func newFanSched(srv *server, off, fsz int64, steps [][2]int) *fanSched {
+	f := &fanSched{steps: steps, off: off, fsz: fsz, srv: srv, inL: map[int]bool{}, inF: map[int]bool{},
+		exited: map[int]bool{}, start: map[int]int{}, end: map[int]int{}}
+	f.cond = sync.NewCond(&f.mu)
+	return f
+}
+
+func (f *fanSched) piece(offset int64) int {
+	if f.fsz == 0 {
+		return 0
+	}
+	return int((offset - f.off) / f.fsz)
+}
+
+// skip the fetch steps of pieces that have already returned
+func (f *fanSched) skip() {
+	for f.pos < len(f.steps) && f.steps[f.pos][1] == 1 && f.exited[f.steps[f.pos][0]] {
+		f.pos++
+	}
+}
+
+func (f *fanSched) wait(i, ph int) {
+	for !f.free && !(f.pos < len(f.steps) && f.steps[f.pos] == [2]int{i, ph}) {
+		f.cond.Wait()
+	}
+}
+
+func (f *fanSched) hook(point string, offset int64) {
+	f.mu.Lock()
+	defer f.mu.Unlock()
+	i := f.piece(offset)
+	switch point {
+	case "lookup":
+		f.wait(i, 0)
+		f.inL[i] = true
+	case "fetch":
+		if f.inL[i] {
+			f.inL[i] = false
+			f.pos++
+			f.skip()
+			f.cond.Broadcast()
+		}
+		f.wait(i, 1)
+		f.inF[i] = true
+		f.start[i] = len(f.srv.served)
+	case "exit":
+		if f.inL[i] || f.inF[i] {
+			if f.inF[i] {
+				f.end[i] = len(f.srv.served)
+			}
+			f.inL[i], f.inF[i] = false, false
+			f.pos++
+		}
+		f.exited[i] = true
+		f.skip()
+		f.cond.Broadcast()
+	}
+}
+
+func (f *fanSched) abandon() {
+	f.mu.Lock()
+	if f.pos < len(f.steps) {
+		f.stalled = true
+	}
+	f.free = true
+	f.cond.Broadcast()
+	f.mu.Unlock()
+}
+
+// pieces of Cache(off, n) as blob.Cache cuts them (count and piece size; 0 = one piece)
+func cachePieces(c Case, off, n int64) (int, int64) {
+	if c.PCS <= c.CS {
+		return 1, 0
+	}
+	fsz := c.CS * (c.PCS / c.CS)
+	k := 0
+	for i := off; i < off+n; i += fsz {
+		k++
+	}
+	return k, fsz
+}
+
+func defaultSched(np int) [][2]int {
+	var s [][2]int
+	for i := 0; i < np; i++ {
+		s = append(s, [2]int{i, 0}, [2]int{i, 1})
+	}
+	return s
+}
 
 // ---------------------------------------------------------------------------------------------
 // execution of one case on the implementation
@@ -548,15 +770,19 @@ type OpOut struct {
 	Reqs    []string
 	Served  []string
 	Kinds   []string
+	Sched   [][2]int   // cache: schedule executed
+	PerPc   [][]string // cache: replies served to each piece
 }
 
 type execResult struct {
+	ops      []Op // ops in the order their effects took place (a parked read comes after the ops it was held over)
 	outs     []OpOut
 	problems []string
 	skip     bool // could not resolve (never expected)
 	// concurrent part
 	concOK, concReqs, concMaxInflight, concMisses int
 	concCloseErr                                  bool
+	parkedReads                                   int
 }
 
 func run(c Case) execResult {
@@ -618,9 +844,17 @@ func run(c Case) execResult {
 			given[x] = true
 		}
 	}
+	var handlers map[string]remote.Handler
+	if c.Handler {
+		handlers = map[string]remote.Handler{"verif": &hnd{srv}}
+		// no registry behind the handler: when Handle fails, the default (HTTP) resolution fails too
+		hosts = source.RegistryHosts(func(reference.Spec) ([]docker.RegistryHost, error) {
+			return nil, fmt.Errorf("no registry (handler mode)")
+		})
+	}
 	resolver := remote.NewResolver(config.BlobConfig{
 		ChunkSize: c.CS, PrefetchChunkSize: c.PCS, CheckAlways: true, ForceSingleRangeMode: c.Force, FetchTimeoutSec: 10,
-	}, nil)
+	}, handlers)
 	b, err := resolver.Resolve(context.Background(), hosts, refspec, desc, rc)
 	if err != nil {
 		res.skip = true
@@ -639,6 +873,84 @@ func run(c Case) execResult {
 		keyRegion[remote.VerifGenID(b, i, e)] = [2]int64{i, e}
 	}
 	lastFS := int64(0)
+	doRead := func(o Op, out *OpOut) {
+		defer func() {
+			if r := recover(); r != nil {
+				out.Res = "panic"
+				if os.Getenv("VERIF_DEBUG") != "" {
+					fmt.Fprintf(os.Stderr, "panic in read: %v\n%s\n", r, debug.Stack())
+				}
+			}
+		}()
+		p := make([]byte, o.N)
+		n, err := b.ReadAt(p, o.Off, cacheOpts(o.Opt)...)
+		if err != nil {
+			out.Res = "err"
+			return
+		}
+		if n < 0 || n > len(p) {
+			bad("ReadAt returned n=%d for a buffer of %d", n, len(p))
+			n = 0
+		}
+		out.Data = p[:n]
+		want := int64(0)
+		if o.Off <= size {
+			want = size - o.Off
+			if want > o.N {
+				want = o.N
+			}
+		}
+		if int64(n) != want {
+			bad("ReadAt(off=%d,len=%d) on a blob of %d bytes returned n=%d, want %d", o.Off, o.N, size, n, want)
+		} else if n > 0 && !bytes.Equal(p[:n], blob[o.Off:o.Off+int64(n)]) {
+			bad("ReadAt(off=%d,len=%d) returned bytes that differ from blob[%d:%d]", o.Off, o.N, o.Off, o.Off+int64(n))
+		}
+	}
+	finish := func(o Op, out OpOut) {
+		if out.Res == "panic" {
+			bad("%s panicked", o.Op)
+		}
+		out.Fetched = remote.VerifFetchedRegions(b)
+		out.FSize = b.FetchedSize()
+		out.Single = remote.VerifSingleRangeMode(b)
+		out.Reqs, out.Served, out.Kinds = srv.reqs, srv.served, srv.kinds
+		// fetched size: = number of distinct blob bytes the cache was ever given, <= size, never decreases
+		gmu.Lock()
+		ngiven := int64(len(given))
+		gmu.Unlock()
+		if out.FSize != ngiven {
+			bad("FetchedSize = %d but the cache was given %d distinct blob bytes", out.FSize, ngiven)
+		}
+		if out.FSize > size {
+			bad("FetchedSize %d exceeds the blob size %d", out.FSize, size)
+		}
+		if out.FSize < lastFS {
+			bad("FetchedSize decreased from %d to %d", lastFS, out.FSize)
+		}
+		lastFS = out.FSize
+		res.ops = append(res.ops, o)
+		res.outs = append(res.outs, out)
+	}
+	// a read parked inside the cache-hit path (see Op.Hold)
+	type parked struct {
+		o    Op
+		out  *OpOut
+		ps   *parkState
+		done chan struct{}
+		left int
+	}
+	var pk *parked
+	resume := func() {
+		srv.script = append([]Pers{}, pk.o.Script...)
+		srv.served, srv.reqs, srv.kinds = nil, nil, nil
+		srv.phase = "data"
+		close(pk.ps.gate)
+		<-pk.done
+		ro := pk.o
+		ro.Op = "read"
+		finish(ro, *pk.out)
+		pk = nil
+	}
 	for _, o := range c.Ops {
 		if o.Op == "expire" {
 			srv.validTok++
@@ -647,44 +959,76 @@ func run(c Case) execResult {
 		srv.script = append([]Pers{}, o.Script...)
 		srv.served, srv.reqs, srv.kinds = nil, nil, nil
 		out := OpOut{Res: "ok"}
+		if o.Op == "parkread" {
+			if pk != nil {
+				resume()
+				srv.script = append([]Pers{}, o.Script...)
+				srv.served, srv.reqs, srv.kinds = nil, nil, nil
+			}
+			srv.phase = "data"
+			np := &parked{o: o, out: &OpOut{Res: "ok"}, ps: &parkState{gate: make(chan struct{}), parked: make(chan struct{})},
+				done: make(chan struct{}), left: o.Hold}
+			rc.mu.Lock()
+			rc.park = np.ps
+			rc.mu.Unlock()
+			go func() {
+				defer close(np.done)
+				doRead(np.o, np.out)
+			}()
+			select {
+			case <-np.ps.parked:
+				res.parkedReads++
+				pk = np
+				if pk.left <= 0 {
+					resume()
+				}
+			case <-np.done: // the first lookup missed (or the read needed no lookup): an ordinary read
+				rc.mu.Lock()
+				rc.park = nil
+				rc.mu.Unlock()
+				ro := o
+				ro.Op = "read"
+				finish(ro, *np.out)
+			}
+			continue
+		}
 		func() {
 			defer func() {
 				if r := recover(); r != nil {
 					out.Res = "panic"
-					if os.Getenv("VERIF_DEBUG") != "" {
-						fmt.Fprintf(os.Stderr, "panic in %s: %v\n%s\n", o.Op, r, debug.Stack())
-					}
 				}
 			}()
 			switch o.Op {
 			case "read":
 				srv.phase = "data"
-				p := make([]byte, o.N)
-				n, err := b.ReadAt(p, o.Off)
-				if err != nil {
-					out.Res = "err"
-					return
-				}
-				if n < 0 || n > len(p) {
-					bad("ReadAt returned n=%d for a buffer of %d", n, len(p))
-					n = 0
-				}
-				out.Data = p[:n]
-				want := int64(0)
-				if o.Off <= size {
-					want = size - o.Off
-					if want > o.N {
-						want = o.N
-					}
-				}
-				if int64(n) != want {
-					bad("ReadAt(off=%d,len=%d) on a blob of %d bytes returned n=%d, want %d", o.Off, o.N, size, n, want)
-				} else if n > 0 && !bytes.Equal(p[:n], blob[o.Off:o.Off+int64(n)]) {
-					bad("ReadAt(off=%d,len=%d) returned bytes that differ from blob[%d:%d]", o.Off, o.N, o.Off, o.Off+int64(n))
-				}
+				doRead(o, &out)
 			case "cache":
 				srv.phase = "data"
-				if err := b.Cache(o.Off, o.N); err != nil {
+				np, fsz := cachePieces(c, o.Off, o.N)
+				steps := o.Sched
+				if len(steps) == 0 {
+					steps = defaultSched(np)
+				}
+				fan := newFanSched(srv, o.Off, fsz, steps)
+				remote.VerifSetCacheAtHook(fan.hook)
+				wd := time.AfterFunc(5*time.Second, fan.abandon)
+				err := b.Cache(o.Off, o.N, cacheOpts(o.Opt)...)
+				wd.Stop()
+				remote.VerifSetCacheAtHook(nil)
+				fan.mu.Lock()
+				if fan.stalled || fan.pos < len(fan.steps) {
+					bad("Cache(off=%d,len=%d): the pieces did not follow the schedule %v (stopped at step %d)", o.Off, o.N, steps, fan.pos)
+				}
+				out.Sched = steps
+				for i := 0; i < np; i++ {
+					var sv []string
+					if e, ok := fan.end[i]; ok {
+						sv = append(sv, srv.served[fan.start[i]:e]...)
+					}
+					out.PerPc = append(out.PerPc, sv)
+				}
+				fan.mu.Unlock()
+				if err != nil {
 					out.Res = "err"
 				}
 			case "evict":
@@ -703,25 +1047,16 @@ func run(c Case) execResult {
 				}
 			}
 		}()
-		if out.Res == "panic" {
-			bad("%s panicked", o.Op)
+		finish(o, out)
+		if pk != nil {
+			pk.left--
+			if pk.left <= 0 {
+				resume()
+			}
 		}
-		out.Fetched = remote.VerifFetchedRegions(b)
-		out.FSize = b.FetchedSize()
-		out.Single = remote.VerifSingleRangeMode(b)
-		out.Reqs, out.Served, out.Kinds = srv.reqs, srv.served, srv.kinds
-		// fetched size: = number of distinct blob bytes the cache was ever given, <= size, never decreases
-		if out.FSize != int64(len(given)) {
-			bad("FetchedSize = %d but the cache was given %d distinct blob bytes", out.FSize, len(given))
-		}
-		if out.FSize > size {
-			bad("FetchedSize %d exceeds the blob size %d", out.FSize, size)
-		}
-		if out.FSize < lastFS {
-			bad("FetchedSize decreased from %d to %d", lastFS, out.FSize)
-		}
-		lastFS = out.FSize
-		res.outs = append(res.outs, out)
+	}
+	if pk != nil {
+		resume()
 	}
 	if len(c.Conc) > 0 {
 		// ---- concurrent part (oracle only): readers and prefetchers at the same time, shared single-flight
@@ -769,7 +1104,7 @@ func run(c Case) execResult {
 						switch o.Op {
 						case "read":
 							p := make([]byte, o.N)
-							n, err := b.ReadAt(p, o.Off)
+							n, err := b.ReadAt(p, o.Off, cacheOpts(o.Opt)...)
 							if err != nil {
 								return
 							}
@@ -788,7 +1123,7 @@ func run(c Case) execResult {
 								okReads[gi]++
 							}
 						case "cache":
-							_ = b.Cache(o.Off, o.N)
+							_ = b.Cache(o.Off, o.N, cacheOpts(o.Opt)...)
 						case "expire":
 							srv.mu.Lock()
 							srv.validTok++
@@ -853,7 +1188,15 @@ func coqOp(o Op, out OpOut) string {
 	case "read":
 		return fmt.Sprintf("ReadAt %s (repeat 0%%N %d) %s", hx.CoqZ(o.Off), o.N, served)
 	case "cache":
-		return fmt.Sprintf("CacheOp %s %s [%s]", hx.CoqZ(o.Off), hx.CoqZ(o.N), served)
+		st := make([]string, len(out.Sched))
+		for i, x := range out.Sched {
+			st[i] = fmt.Sprintf("(%d%%nat, %s)", x[0], hx.CoqBool(x[1] == 1))
+		}
+		pp := make([]string, len(out.PerPc))
+		for i, x := range out.PerPc {
+			pp[i] = hx.CoqList(x)
+		}
+		return fmt.Sprintf("CacheOp %s %s %s %s", hx.CoqZ(o.Off), hx.CoqZ(o.N), hx.CoqList(st), hx.CoqList(pp))
 	case "evict":
 		return fmt.Sprintf("Evict (%s, %s)", hx.CoqZ(o.B), hx.CoqZ(o.E))
 	case "check":
@@ -879,19 +1222,14 @@ func coqOut(o OpOut) string {
 	return fmt.Sprintf("(%s, %s, %s, %s, %s)", r, coqRegs(fr), hx.CoqZ(o.FSize), hx.CoqBool(o.Single), hx.CoqList(o.Reqs))
 }
 
-func coqCase(c Case, outs []OpOut) string {
-	var ops, os []string
-	i := 0
-	for _, o := range c.Ops {
-		if o.Op == "expire" {
-			continue
-		}
-		ops = append(ops, coqOp(o, outs[i]))
-		os = append(os, coqOut(outs[i]))
-		i++
+func coqCase(c Case, ops []Op, outs []OpOut) string {
+	var os, oo []string
+	for i, o := range ops {
+		os = append(os, coqOp(o, outs[i]))
+		oo = append(oo, coqOut(outs[i]))
 	}
-	return fmt.Sprintf("(mkCfg %s %s %s %s, %s, %s)", hx.CoqZ(int64(c.Size)), hx.CoqZ(c.CS), hx.CoqZ(c.PCS), hx.CoqBool(c.Force),
-		hx.CoqList(ops), hx.CoqList(os))
+	return fmt.Sprintf("(mkCfg %s %s %s %s %s, %s, %s)", hx.CoqZ(int64(c.Size)), hx.CoqZ(c.CS), hx.CoqZ(c.PCS), hx.CoqBool(c.Force),
+		hx.CoqBool(c.Handler), hx.CoqList(os), hx.CoqList(oo))
 }
 
 // ---------------------------------------------------------------------------------------------
@@ -949,6 +1287,10 @@ func gen(r *hx.Rng) Case {
 	if r.Chance(1, 5) {
 		c.Cache = "dir"
 	}
+	if r.Chance(1, 6) {
+		c.Handler = true
+		c.Force = false
+	}
 	size := int64(c.Size)
 	nops := r.Range(2, 9)
 	for i := 0; i < nops; i++ {
@@ -977,15 +1319,36 @@ func gen(r *hx.Rng) Case {
 			o.Off = int64(r.Intn(c.Size + 2))
 			o.N = int64(r.Intn(3*int(c.CS) + 2))
 			if c.PCS > c.CS {
-				// keep to one cacheAt piece: the pieces of a fanned-out Cache run concurrently
-				// (exercised by the concurrent part of this harness, oracle only)
+				// fanned-out Cache: up to 4 pieces, run in a random interleaving of their sub-steps
 				fs := c.CS * (c.PCS / c.CS)
-				if o.N > fs {
-					o.N = fs
+				if r.Chance(2, 3) {
+					o.N = int64(r.Range(1, 4))*fs - int64(r.Intn(int(fs)))
+				}
+				if o.N > 4*fs {
+					o.N = 4 * fs
 				}
 			}
 			if r.Chance(1, 8) {
 				o.Off, o.N = 0, 0
+			}
+			if np, _ := cachePieces(c, o.Off, o.N); np > 1 {
+				next := make([]int, np) // next phase of each piece
+				for left := 2 * np; left > 0; left-- {
+					i := r.Intn(np)
+					for next[i] > 1 {
+						i = (i + 1) % np
+					}
+					if r.Chance(1, 3) { // bias: all walks first (every piece sees the same cache)
+						for j := 0; j < np; j++ {
+							if next[j] == 0 {
+								i = j
+								break
+							}
+						}
+					}
+					o.Sched = append(o.Sched, [2]int{i, next[i]})
+					next[i]++
+				}
 			}
 		case 2:
 			if c.Cache == "dir" || c.Size == 0 {
@@ -1026,6 +1389,24 @@ func gen(r *hx.Rng) Case {
 			}
 		default:
 			o = Op{Op: "expire"}
+		}
+		if c.Handler && o.Op == "refresh" {
+			o.Script = [][]Pers{nil, nil, {{K: "hfail"}}, {{K: "hwrong"}}}[r.Intn(4)]
+		}
+		if (o.Op == "read" || o.Op == "cache") && r.Chance(1, 4) {
+			o.Opt = []string{"direct", "pass", "both"}[r.Intn(3)]
+		}
+		if o.Op == "read" && c.Cache == "dir" && r.Chance(1, 3) {
+			// read it once (so that the first chunk sits in the cache's memory LRU), then read it again parked in the
+			// cache-hit path while the following ops (forced to be prefetches of other ranges) churn the LRU
+			c.Ops = append(c.Ops, o)
+			o = Op{Op: "parkread", Off: o.Off, N: o.N, Hold: r.Range(1, 3), Script: genScript(r), Opt: o.Opt}
+			c.Ops = append(c.Ops, o)
+			for k := 0; k < o.Hold; k++ {
+				c.Ops = append(c.Ops, Op{Op: "cache", Off: int64(r.Intn(c.Size + 1)), N: int64(r.Range(1, 4)) * c.CS})
+			}
+			i += o.Hold
+			continue
 		}
 		c.Ops = append(c.Ops, o)
 	}
@@ -1106,6 +1487,20 @@ func corpus() []Case {
 		{Size: 16, CS: 4, Cache: "dir", Ops: []Op{rd(1, 9, "trunc"), rd(1, 9, "broken"), rd(1, 9, "short"), rd(1, 9, "unaligned"), rd(0, 17)}},
 		{Size: 16, CS: 4, PCS: 8, Cache: "mem", Ops: []Op{{Op: "cache", Off: 3, N: 6}, {Op: "cache", Off: 0, N: 0}, {Op: "check"}, {Op: "refresh"}, rd(0, 17)}},
 		{Size: 0, CS: 4, Cache: "mem", Ops: []Op{rd(0, 3), {Op: "cache", Off: 0, N: 5}, rd(1, 1)}},
+		// a read parked between cache.Get (memory LRU hit of the directory cache, 2 entries) and the copy, while
+		// prefetches commit four other chunks (evicting the entry and recycling buffers)
+		{Size: 32, CS: 4, Cache: "dir", Ops: []Op{rd(0, 4), {Op: "parkread", Off: 1, N: 3, Hold: 2},
+			{Op: "cache", Off: 8, N: 8}, {Op: "cache", Off: 16, N: 8}, rd(0, 33)}},
+		{Size: 32, CS: 4, Cache: "dir", Ops: []Op{{Op: "cache", Off: 4, N: 8}, {Op: "parkread", Off: 8, N: 4, Hold: 1},
+			{Op: "cache", Off: 12, N: 16}, {Op: "parkread", Off: 30, N: 5, Hold: 1}, rd(0, 33)}},
+		{Size: 30, CS: 4, Handler: true, Cache: "mem", Ops: []Op{rd(5, 6), rd(20, 3), rd(0, 30, "trunc"), rd(0, 30, "over"),
+			rd(0, 12, "500"), {Op: "check"}, {Op: "check", Script: []Pers{{K: "500"}}}, {Op: "refresh"},
+			{Op: "refresh", Script: []Pers{{K: "hfail"}}}, {Op: "refresh", Script: []Pers{{K: "hwrong"}}}, rd(0, 31)}},
+		{Size: 30, CS: 4, PCS: 8, Handler: true, Cache: "dir", Ops: []Op{{Op: "cache", Off: 3, N: 20, Opt: "direct",
+			Sched: [][2]int{{2, 0}, {1, 0}, {1, 1}, {0, 0}, {2, 1}, {0, 1}}}, {Op: "read", Off: 2, N: 9, Opt: "both"}, rd(0, 31)}},
+		{Size: 30, CS: 4, PCS: 9, Cache: "mem", Ops: []Op{rd(9, 2), {Op: "cache", Off: 2, N: 22,
+			Sched: [][2]int{{1, 0}, {0, 0}, {2, 0}, {2, 1}, {0, 1}, {1, 1}}, Script: []Pers{{K: "multi"}, {K: "500"}, {K: "whole"}}},
+			{Op: "cache", Off: 2, N: 22}, rd(0, 31)}},
 		{Size: 7, CS: 3, Force: true, Cache: "mem", Ops: []Op{rd(0, 1), rd(6, 1), rd(0, 7), {Op: "refresh"}, rd(0, 7)}},
 		{Size: 16, CS: 4, Cache: "mem", Ops: []Op{rd(0, 2), rd(9, 2), rd(0, 16, "first"), rd(0, 16, "mpalways"),
 			{Op: "evict", B: 4, E: 7}, rd(4, 8, "over"), rd(0, 17)}},
@@ -1119,21 +1514,22 @@ func main() {
 	emit := func(c Case) {
 		res := run(c)
 		if res.skip {
-			id := ctx.Case("(mkCfg 0%Z 1%Z 0%Z false, [], [])", c, "skip", false)
+			id := ctx.Case("(mkCfg 0%Z 1%Z 0%Z false false, [], [])", c, "skip", false)
 			for _, p := range res.problems {
 				ctx.Violation(id, p, nil)
 			}
 			return
 		}
 		fetches, okReads := 0, 0
-		i := 0
 		for _, o := range c.Ops {
-			ctx.Count("op." + o.Op)
-			if o.Op == "expire" {
-				continue
+			if o.Op == "expire" || o.Op == "parkread" {
+				ctx.Count("op." + o.Op)
 			}
+		}
+		ctx.CountN("read.parked_in_cache_hit", res.parkedReads)
+		for i, o := range res.ops {
+			ctx.Count("op." + o.Op)
 			out := res.outs[i]
-			i++
 			ctx.Count("result." + o.Op + "." + out.Res)
 			for _, k := range out.Kinds {
 				ctx.Count("served." + k)
@@ -1141,6 +1537,18 @@ func main() {
 			for _, q := range out.Reqs {
 				if strings.HasPrefix(q, "QData") {
 					fetches++
+				}
+			}
+			if o.Op == "cache" && len(out.PerPc) > 1 {
+				ctx.Count("cache.fanout")
+				interleaved := false
+				for k := 0; k+1 < len(out.Sched); k += 2 {
+					if out.Sched[k][0] != out.Sched[k+1][0] {
+						interleaved = true
+					}
+				}
+				if interleaved {
+					ctx.Count("cache.fanout.interleaved")
 				}
 			}
 			if o.Op == "read" {
@@ -1159,8 +1567,18 @@ func main() {
 			}
 		}
 		ctx.Count("cache." + c.Cache)
+		if c.Handler {
+			ctx.Count("fetcher.handler")
+		} else {
+			ctx.Count("fetcher.http")
+		}
+		for _, o := range c.Ops {
+			if o.Opt != "" {
+				ctx.Count("opt." + o.Opt)
+			}
+		}
 		ctx.CountN("ops", len(c.Ops))
-		term := coqCase(c, res.outs)
+		term := coqCase(c, res.ops, res.outs)
 		key := term
 		nontrivial := fetches > 0 && okReads > 0
 		if len(c.Conc) > 0 {
